@@ -23,8 +23,8 @@ PLAN = dict(
         "/repo ('fix: a thread blocked in task_arena::execute was not woken when a worker gave back its slot'); the directed leg `drive --witness3` keeps that shape covered"],
     floor=dict(quick=500, thorough=5000),
     tiers=dict(
-        quick=[det("rel", H, "cs-rel", 16, 170, 4, tso=True, time_cap=20),
-               det("dbg", H, "cs-dbg", 16, 60, 4, tso=True, time_cap=12, args=["--no-soft0"]),
+        quick=[det("rel", H, "cs-rel", 16, 340, 4, tso=True, time_cap=35),
+               det("dbg", H, "cs-dbg", 16, 120, 4, tso=True, time_cap=25, args=["--no-soft0"]),
                det("witness-oversubscribed", H, "cs-rel", 1, 10, 3, time_cap=15, args=["--witness"]),
                det("witness-allotment-assert", H, "cs-dbg", 1, 15, 4, time_cap=20, args=["--witness2"]),
                det("directed-execute-wait", H, "cs-rel", 2, 30, 6, tso=True, time_cap=20, args=["--witness3"])],
